@@ -42,6 +42,10 @@ class AllocDict : public Engine {
                 size_t n = gen_length(r, tier);
                 int cls = r.chance(1, 2) ? ARR_LOWCARD : (int)r.below(ARR_NCLASSES);
                 if (r.chance(1, 4)) n = r.range(17, 300); // more than the initial capacity of 16 uniques
+                if (r.chance(1, 8)) { // crossing an index-width class (257+ unique values)
+                    n = r.range(257, 420);
+                    cls = ARR_FULL64;
+                }
                 last = gen_array(r, n, r.chance(1, 3) ? ARR_FULL64 : cls);
                 op.mkarr("values") = last;
                 break;
